@@ -10,7 +10,7 @@ FACTS_FOR = {
     "C05": ["mwWriteOk", "mwSyncOk", "mwUnmapOk", "handleErrorNoLock", "errorAttributionWriteAt", "errorAttributionSync",
             "errorAttributionUnmap", "errorAttributionReadAt", "removeBackendTail", "removeReplicaTail"],
     "C06": ["fullWritePunch", "preloadPunch", "removeIndexSnapIndx", "lookupBody"],
-    "C07": ["verifyOrder", "verifyChainGuard", "verifySlices", "canAdd", "addReplicaNoLockRechecks", "writeWidensForWO", "widenForWO"],
+    "C07": ["verifyOrder", "verifyChainGuard", "verifySlices", "canAdd", "addReplicaNoLockRechecks", "addReplicaOrder", "writeWidensForWO", "widenForWO"],
     "C09": ["canSignal", "electionLoop", "electionInit", "electionSkipsRebuildingRegistrant"],
     "C10": ["replicaWriteCounter", "increaseRevisionCounter", "getRevisionCounter", "guard_Replica_SetRevisionCounter", "verifyOrder"],
     "C11": ["cleanerConds", "cleanerSlices", "removeIndexShifts", "removeIndexBody", "removeIndexSnapIndx",
@@ -25,7 +25,7 @@ FACTS_FOR = {
             "guard_Server_ReadAt", "guard_Server_Sync", "guard_Server_Unmap", "guard_Server_Snapshot",
             "guard_Server_RemoveDiffDisk", "guard_Server_ReplaceDisk", "guard_Server_PrepareRemoveDisk", "guard_Server_Revert",
             "guard_Server_SetReplicaMode", "guard_Server_SetRevisionCounter", "guard_Server_SetCheckpoint", "guard_Server_Reload"],
-    "C18": ["buildReadWriters", "removeBackendTail", "canAdd", "addReplicaNoLockRechecks", "removeReplicaTail", "volStatusCounts"],
+    "C18": ["buildReadWriters", "removeBackendTail", "canAdd", "addReplicaNoLockRechecks", "addReplicaOrder", "removeReplicaTail", "volStatusCounts"],
 }
 
 ENGINES = ["replicadiff", "ctldiff", "rpcdiff", "restdiff", "crashdiff"]
@@ -43,7 +43,7 @@ def rep(profile, qn, ql, tn, tl, salt=0):
 
 CTL = ["modelled: every environment answer (replica replies, start signal, liveness probe, map iteration order where it matters) is part of the request; theorems quantify over all of them",
        "modelled: quorum (updater) replicas are not modelled (quorumReplicaCount = 0); Start carries one address (what sync.AddReplica sends)",
-       "modelled: goroutine fan-out inside MultiWriterAt / Snapshot / Resize is replaced by its wg.Wait() summary; each request is one step because the code holds Controller.Lock across it",
+       "modelled: goroutine fan-out inside MultiWriterAt / Snapshot / Resize is replaced by its wg.Wait() summary; each request is one step because the code holds Controller.Lock across it — except AddReplica, which releases the lock around factory.Create and is modelled as its two critical sections (addPre / addPost) that interleave freely with every other request; the harness holds the real call inside Create with a gate in the scripted factory",
        "harness: real controller.Controller driven in-process with scripted types.BackendFactory / Backend / Frontend and HTTP replica endpoints on 127.x.y.z:9502; monitor goroutines are fired by the harness",
        "not covered: timers (ping ticker, 1 s read-only delay), data races, the vendored iSCSI frontend"]
 
@@ -77,7 +77,7 @@ PROPS = {
                 "partial: the replica-side registration loop (sync.AddReplica, 5 s ticker) is modelled as 'registration may repeat'"]},
     "C13": {"lean": CTLMOD, "prefixes": ["c13_", "ctl_reachable_inv"],
             "runs": [ctl("snapshots", 480, 30, 9000, 40, 16)], "modelled": CTL},
-    "C18": {"lean": CTLMOD, "prefixes": ["c18_", "c07_single_wo", "ctl_reachable_inv"],
+    "C18": {"lean": CTLMOD, "prefixes": ["c18_", "c07_single_wo", "ctl_reachable_inv", "run_rf", "step_rf"],
             "runs": [ctl("membership", 480, 30, 9000, 40, 17)], "modelled": CTL},
     "C01": {"lean": ["JivaVerif.Properties.C01"],
             "runs": [rep("io", 480, 30, 8000, 45), rep("mix", 320, 30, 6000, 45, 1)], "modelled": FS},
